@@ -130,7 +130,7 @@ def quotient_classes(ctx, code, shape, oc):
             extra.append(("%s, upper half" % cname, (mid, iv[1]), ranks, want))
     classes = classes + extra
 
-    def role(t):
+    def role(t, path=None):
         t = U.strip(t)
         if t[0] == "reg":
             if C01.operand_of_leaf(facts, t) == 0:
@@ -139,6 +139,15 @@ def quotient_classes(ctx, code, shape, oc):
                 return "hi"
         if t[0] == "mem" and C01.operand_of_leaf(facts, t) == 0:
             return "d"
+        if t[0] in ("bin", "cast") and path is not None and N > 8:
+            # bit provenance: a term whose bits are exactly those of the high-half register (e.g. dividend >> N)
+            bv = A.bitvec(t, path)
+            srcs = {b_[0] for b_ in bv[:N] if isinstance(b_, tuple)}
+            if len(srcs) == 1 and all(isinstance(bv[i], tuple) and bv[i][1] == i and not bv[i][2] for i in range(N)) \
+                    and all(b_ == 0 for b_ in bv[N:]):
+                src = U.strip(list(srcs)[0])
+                if src[0] == "reg" and U.reg_name(facts, src[2]) == HI_REG[N] and src[1] == N:
+                    return "hi"
         return None
 
     def interval(path, t, sg, iv):
@@ -176,7 +185,7 @@ def quotient_classes(ctx, code, shape, oc):
     for cname, iv, ranks, want_success in classes:
         def oracle(path, op, a, b, iv=iv, ranks=ranks):
             if ranks is not None:
-                ra, rb = role(a), role(b)
+                ra, rb = role(a, path), role(b, path)
                 if ra is not None and rb is not None:
                     x, y = ranks[ra], ranks[rb]
                     return int({"Eq": x == y, "Ne": x != y, "Lt": x < y, "Le": x <= y, "Gt": x > y, "Ge": x >= y}[op])
